@@ -203,6 +203,7 @@ type RuleFile struct {
 var ruleVars = []string{"ARGS", "ARGS", "REQUEST_COOKIES|!REQUEST_COOKIES:/__utm/|ARGS_NAMES|ARGS|XML:/*", "ARGS_NAMES|ARGS:/^json\\.\\d+$/", "REQUEST_HEADERS:User-Agent", "TX:/^old/"}
 
 type RulesOpts struct {
+	MixedEOL      []int // per line (cycled): 1 = this line ends in CRLF although the file uses LF
 	CRLF          bool
 	NoFinalNL     bool
 	IDComments    bool // comments that mention rule ids
@@ -287,6 +288,16 @@ func renderRuleFile(rf *RuleFile, o RulesOpts, header string, commentFor func(i 
 		sb.WriteString(nl)
 	}
 	s := sb.String()
+	if len(o.MixedEOL) > 0 && !o.CRLF {
+		// a file with LF line ends in which some lines end in CRLF (edited on another system)
+		lines := strings.Split(s, "\n")
+		for i := range lines {
+			if i < len(lines)-1 && o.MixedEOL[i%len(o.MixedEOL)] == 1 {
+				lines[i] += "\r"
+			}
+		}
+		s = strings.Join(lines, "\n")
+	}
 	if o.NoFinalNL {
 		s = strings.TrimRight(s, "\r\n")
 	}
@@ -553,3 +564,10 @@ func sortedKeys[V any](m map[string]V) []string {
 var ruleNameRe = regexp.MustCompile(`^[0-9]{6}(-chain[0-9]+)?\.ra$`)
 
 func sprintf(format string, args ...any) string { return fmt.Sprintf(format, args...) }
+
+func lastOf(lines []string) string {
+	if len(lines) == 0 {
+		return ""
+	}
+	return lines[len(lines)-1]
+}
